@@ -9,6 +9,13 @@ void* tins_memcpy(void* dst, const void* src, size_t n)
 __CPROVER_requires(__CPROVER_w_ok(dst, n) && __CPROVER_r_ok(src, n))
 __CPROVER_assigns(__CPROVER_object_whole(dst))
 __CPROVER_ensures(__CPROVER_return_value == dst)
+;
+/* the same with the first two bytes of content (what the typed cursor reads need); kept apart because content clauses
+   over a havocked object are expensive (DNS::compose_name: 53 s without, > 15 min with) */
+void* tins_memcpy2(void* dst, const void* src, size_t n)
+__CPROVER_requires(__CPROVER_w_ok(dst, n) && __CPROVER_r_ok(src, n))
+__CPROVER_assigns(__CPROVER_object_whole(dst))
+__CPROVER_ensures(__CPROVER_return_value == dst)
 __CPROVER_ensures(n >= 1 ==> ((const uint8_t*)dst)[0] == ((const uint8_t*)src)[0])
 __CPROVER_ensures(n >= 2 ==> ((const uint8_t*)dst)[1] == ((const uint8_t*)src)[1])
 ;
